@@ -39,8 +39,8 @@ type Macro struct {
 var Macros = map[string]map[string]*Macro{}
 
 type Contract struct {
-	Pkg      string // package path
-	Func     string // function key as written: Encode, (Date).Before, (*Date).UnmarshalJSON, sendto, udpBroadcastTo$1
+	Pkg      string   // package path
+	Func     string   // function key as written: Encode, (Date).Before, (*Date).UnmarshalJSON, sendto, udpBroadcastTo$1
 	Params   []string // optional renaming of parameters (receiver first)
 	Results  []string // names for results
 	Requires []*Clause
@@ -59,7 +59,9 @@ type Contract struct {
 }
 
 // SpecText: the normalised specification part of the contract (pinned by property specs).
-func (c *Contract) SpecText() string { return strings.Join(strings.Fields(strings.Join(c.Raw, " ; ")), " ") }
+func (c *Contract) SpecText() string {
+	return strings.Join(strings.Fields(strings.Join(c.Raw, " ; ")), " ")
+}
 
 // MacroRaw: package path -> macro name -> text as written
 var MacroRaw = map[string]map[string]string{}
@@ -357,22 +359,22 @@ type SpecFunc struct {
 
 type SpecAxiom struct {
 	Triggers []string
-	Label   string
-	E       Expr
-	Src     string
-	IsLemma bool
-	File    string
-	Line    int
-	term    *Term
+	Label    string
+	E        Expr
+	Src      string
+	IsLemma  bool
+	File     string
+	Line     int
+	term     *Term
 }
 
 type SpecDB struct {
-	Ghosts map[string]Sort
+	Ghosts     map[string]Sort
 	GhostOrder []string
-	Sorts  map[string]bool
-	Funcs  map[string]*SpecFunc
-	Axioms []*SpecAxiom
-	Consts map[string]Sort
+	Sorts      map[string]bool
+	Funcs      map[string]*SpecFunc
+	Axioms     []*SpecAxiom
+	Consts     map[string]Sort
 }
 
 func NewSpecDB() *SpecDB {
